@@ -376,6 +376,14 @@ class Generator(TreeListener):
                         src, lambda i: i, True, tree.operands[0], f.index_variable
                     )
 
+                # There is a single duration per delay call, so it cannot
+                # differ between the iterations of an enclosing for-loop.
+                loop_symbols = {f.index_variable, *f.indexed_symbols}
+                if loop_symbols.intersection(ca.symvar(ca.MX(duration))):
+                    raise NotImplementedError(
+                        "Delay durations depending on the for-loop index are not supported"
+                    )
+
             self.model.delay_states.append(src.name())
             self.model.inputs.append(Variable(src))
 
